@@ -42,35 +42,36 @@ Fixpoint run5s (c : cfg) (s : state) (toks : list string) : list string :=
   end.
 
 (* ---- source-derived components (harness/cmd/c05/source.go) ----
-   the functions of the library that write a field of Host / MACEntry or one of the two tables, with the fields they
-   write, as the model's steps were transcribed from them:
-     Config.NewSession -> new_session;  Host.Update*Name -> update_name;  MACEntry.link (unused) / unlink, MACTable.delete,
-     Session.deleteHost -> delete_host;  MACTable.findOrCreate -> mac_new (find_or_create, capture);
-     Session.findOrCreateHostWithLock -> find_or_create;  Session.onlineTransition -> online_transition;
-     Session.makeOffline -> make_offline;  Session.notify -> notify_host;  Session.DHCPv4Update -> dhcp4_update;
-     Session.SetDHCPv4IPOffer -> set_offer;  Session.Capture / Release -> capture / release *)
+   for every API entry point of the statements: the Host / MACEntry fields and the tables it writes, directly or through
+   unexported helpers (by bare name; an over-approximation), literals counted like assignments.  The model's steps:
+     NewSession -> new_session;  Parse -> Rx (find_or_create, online_transition);  Notify -> notify (notify_host, make_offline);
+     DHCPv4Update -> dhcp4_update;  SetDHCPv4IPOffer -> set_offer;  Capture / Release -> capture / release;
+     purge -> purge (make_offline, delete_host);  Update*Name -> update_name.
+   A NEW field written from an entry point, or a field no longer written, changes the line; helper names do not. *)
 Definition writers_expected : list string :=
-  [ "Config.NewSession:IP4+IP6LLA+IsRouter+LastSeen+Online";
-    "Host.UpdateDHCP4Name:DHCP4Name+dirty"; "Host.UpdateLLMNRName:LLMNRName+dirty"; "Host.UpdateMDNSName:MDNSName+dirty";
-    "Host.UpdateNBNSName:NBNSName+dirty"; "Host.UpdateSSDPName:SSDPName+dirty";
-    "MACEntry.link:HostList"; "MACEntry.unlink:HostList";
-    "MACTable.delete:MACTable.Table"; "MACTable.findOrCreate:MACTable.Table+new(MACEntry)";
-    "Session.Capture:Captured"; "Session.DHCPv4Update:IP4Offer"; "Session.Release:Captured";
-    "Session.SetDHCPv4IPOffer:DHCP4Name+IP4Offer"; "Session.deleteHost:HostTable.Table";
-    "Session.findOrCreateHostWithLock:HostList+HostTable.Table+HuntStage+LastSeen+Manufacturer+dirty+new(Host)";
-    "Session.makeOffline:Online+dirty"; "Session.notify:dirty";
-    "Session.onlineTransition:IP4+IP6GUA+IP6LLA+Online+dirty" ].
+  [ "Capture:Captured+IP4+IP4Offer+IP6GUA+IP6LLA+MACTable.Table";
+    "DHCPv4Update:Addr+HostList+HostTable.Table+HuntStage+IP4+IP4Offer+IP6GUA+IP6LLA+LastSeen+MACEntry+MACTable.Table+Manufacturer+Online+dirty";
+    "NewSession:Addr+HostList+HostTable.Table+HuntStage+IP4+IP4Offer+IP6GUA+IP6LLA+IsRouter+LastSeen+MACEntry+MACTable.Table+Manufacturer+Online+dirty";
+    "Notify:IP4+IP6GUA+IP6LLA+Online+dirty";
+    "Parse:Addr+HostList+HostTable.Table+HuntStage+IP4+IP4Offer+IP6GUA+IP6LLA+LastSeen+MACEntry+MACTable.Table+Manufacturer+Online+dirty";
+    "Release:Captured";
+    "SetDHCPv4IPOffer:DHCP4Name+IP4+IP4Offer+IP6GUA+IP6LLA+MACTable.Table";
+    "UpdateDHCP4Name:DHCP4Name+dirty";
+    "UpdateLLMNRName:LLMNRName+dirty";
+    "UpdateMDNSName:MDNSName+dirty";
+    "UpdateNBNSName:NBNSName+dirty";
+    "UpdateSSDPName:SSDPName+dirty";
+    "purge:HostList+HostTable.Table+MACTable.Table+Online+dirty" ].
 
 (* every read of the wall clock (time.Now / time.Since) and every comparison of time stamps (Sub / Before / After) in
-   hosttable.go, mactable.go, session.go, layer_frame.go, notification.go, per function:
+   hosttable.go, mactable.go, session.go, layer_frame.go, notification.go, counted per FILE (functions get split and renamed):
      findOrCreateHostWithLock: Now -> the [now] of Rx / DHCPv4Update (LastSeen of host and MAC entry, every call);
      Config.NewSession: Now x3 -> [new_session]'s t0 (own host: t0 + year), the purge ticker (purge(now): the [now] of Purge)
        and a log line;  Session.purge: the three cut-off comparisons (probe: not modelled; offline, delete: [age]);
      FastLog (Host, MACEntry): log text only.
    The real-time kind rt (D04, D06) is the behavioural tie of these reads; this list makes a NEW read a tie-only alarm. *)
 Definition clocks_expected : list string :=
-  [ "hosttable.go:Host.FastLog:Since*1"; "hosttable.go:Session.findOrCreateHostWithLock:Now*1";
-    "mactable.go:MACEntry.FastLog:Since*1"; "session.go:Config.NewSession:Now*3"; "session.go:Session.purge:cmp*3" ].
+  [ "hosttable.go:Now*1+Since*1"; "mactable.go:Since*1"; "session.go:Now*3+cmp*3"; "layer_frame.go:"; "notification.go:" ].
 
 Definition consts_expected : string :=
   "probe=" ++ dec_of_Z default_probe ++ ",offline=" ++ dec_of_Z default_offline ++ ",purge=" ++ dec_of_Z default_purge ++
